@@ -53,7 +53,7 @@ def op_const_int(op):
         return op['int']
     return None
 
-_STR_RE = re.compile(r'^const "(.*)"$', re.S)
+_STR_RE = re.compile(r'^(?:const )?"(.*)"$', re.S)
 _CHAR_RE = re.compile(r"^const '(.*)'$", re.S)
 
 def _unescape(s):
